@@ -40,6 +40,7 @@ class Tok:
 
     const_proto_assumed = 1
     const_proto_read = False
+    harness = None
 
     def sa_type(self):
         if not self.cls or self.op in ("BODY", "CONST"):
@@ -63,6 +64,12 @@ class Tok:
             if self.proto is None:
                 raise Unsupported(f"protocol of the abstract opcode {self.op}")
             return Record("OpcodeInfo", {"proto": self.proto, "name": self.op})
+        # any other attribute: a property of the opcode's own class, interpreted on an instance built from this token
+        h = Tok.harness
+        if h is not None and self.cls and self.op not in ("BODY", "CONST"):
+            c = h.repo.classes.get(f"fickling.fickle.{self.cls}")
+            if c is not None and h.repo.find_method(c, name, "property") is not None:
+                return h.objeval().ref(c)(self.arg).sa_attr(name)
         raise Unsupported(f"attribute .{name} of an opcode")
 
     def __repr__(self):
@@ -135,6 +142,7 @@ class Harness:
         co = repo.cls("fickling.fickle.ConstantOpcode")
         self.const_classes = {c.name for c in repo.subclasses(co, strict=True)}
         self.const_opnames = {self.opname[c] for c in self.const_classes if c in self.opname}
+        Tok.harness = self
 
     def objeval(self):
         if getattr(self, "_oe", None) is None:
@@ -147,6 +155,7 @@ class Harness:
     def new_self(self, tokens: List[Tok]) -> Record:
         rec = Record("Pickled", {"tokens": tokens, "_opcodes": tokens})
         rec.fields["__getitem__"] = lambda i: self._getitem(tokens, i)
+        rec.fields["__getattr__"] = lambda name: self.get_property(rec, name)
         rec.fields["__len__"] = lambda: len(tokens)
         rec.fields["__iter__"] = lambda: list(tokens)
         return rec
@@ -157,6 +166,19 @@ class Harness:
             return tokens[i]
         except IndexError:
             raise PyRaise("IndexError")
+
+    def get_property(self, selfrec: Record, name: str):
+        """A property of Pickled that the abstract object does not model natively: interpret the repository's getter."""
+        f = self.repo.find_method(self.pk, name, "property")
+        if f is None:
+            found = self.repo.find_attr(self.pk, name)
+            if found is not None:
+                try:
+                    return ast.literal_eval(found[1])  # a class-level constant
+                except (ValueError, SyntaxError):
+                    pass
+            raise Unsupported(f"attribute .{name} of the abstract Pickled")
+        return self.evaluator({f.params()[0]: selfrec}, 1).run_body(f.node.body)
 
     def call_method(self, selfrec: Record, name: str, args: list, kw: dict, depth: int = 0):
         if depth > 12:
@@ -246,10 +268,22 @@ class Harness:
                     raise PyRaise("ValueError")
                 # which class wins is decided by the repository's own priority search, interpreted (sa/objeval)
                 try:
-                    inst = h.objeval().ref(h.repo.cls(f"fickling.fickle.{parts[0]}")).sa_attr("new")(v)
+                    inst = h.objeval().ref(h.repo.cls(f"fickling.fickle.{parts[0]}")).sa_attr("new")(*args, **kw)
                     cn = inst.c.name
                     if cn in h.opname:
-                        return Tok(h.opname[cn], v, cn)
+                        # the value the opcode DELIVERS (its interpreted encoding read back by pickletools), which is what
+                        # the injected call receives; a constant that cannot be serialised keeps the value handed in
+                        delivered = v
+                        try:
+                            from .c15 import _IMPLICIT, _disassemble
+
+                            data = inst.sa_attr("encode")()
+                            ops_, _err = _disassemble(data) if isinstance(data, bytes) else (None, None)
+                            if ops_ and len(ops_) == 1:
+                                delivered = _IMPLICIT.get(ops_[0][0], ops_[0][1])
+                        except (PyRaise, Unsupported):
+                            pass
+                        return Tok(h.opname[cn], delivered, cn)
                 except Unsupported:
                     pass
                 return Tok("CONST", v, parts[0])
@@ -429,10 +463,44 @@ def run_tokens(tokens: List[Tok], by_name) -> Dict[str, Any]:
                 if key not in memo:
                     raise VMError(f"GET {k!r} reads a memo key the template never wrote (it would read whatever the base pickle stored there)")
                 stack.append(memo[key])
+        elif op in ("APPENDS", "SETITEMS", "ADDITEMS"):
+            items = []
+            while True:
+                if not stack:
+                    raise VMError(f"{op}: no MARK on the stack")
+                v = stack.pop()
+                if v is mark:
+                    break
+                items.insert(0, v)
+            want_kind = {"APPENDS": "list", "SETITEMS": "dict", "ADDITEMS": "set"}[op]
+            if not stack or not (isinstance(stack[-1], tuple) and stack[-1] and stack[-1][0] == want_kind):
+                raise VMError(f"{op}: the object below the MARK is {stack[-1] if stack else 'missing'!r}, not a {want_kind}")
+            if op == "SETITEMS" and len(items) % 2:
+                raise VMError("SETITEMS: odd number of items")
+            stack[-1] = stack[-1] + tuple(items)
+        elif op in ("APPEND", "SETITEM"):
+            n_ = 1 if op == "APPEND" else 2
+            if len(stack) < n_ + 1 or any(x is mark for x in stack[-n_ - 1:]):
+                raise VMError(f"{op}: operands missing")
+            items = [stack.pop() for _ in range(n_)][::-1]
+            want_kind = "list" if op == "APPEND" else "dict"
+            if not (isinstance(stack[-1], tuple) and stack[-1] and stack[-1][0] == want_kind):
+                raise VMError(f"{op}: target is {stack[-1]!r}, not a {want_kind}")
+            stack[-1] = stack[-1] + tuple(items)
+        elif op == "DUP":
+            if not stack or stack[-1] is mark:
+                raise VMError("DUP: nothing to duplicate")
+            stack.append(stack[-1])
+        elif op == "POP_MARK":
+            while True:
+                if not stack:
+                    raise VMError("POP_MARK: no MARK on the stack")
+                if stack.pop() is mark:
+                    break
         elif op == "STOP":
             stopped_at = idx
         else:
-            raise VMError(f"template uses opcode {op} which the template VM does not model")
+            raise Unsupported(f"the rewritten pickle uses opcode {op}, which the template VM does not model")
         executed.append(repr(t))
     if stopped_at is None:
         raise VMError("no STOP")
@@ -531,6 +599,16 @@ def run(rep: Report, tier: str):
     rep.assume("pickletools stack effects for GLOBAL MARK TUPLE LIST DICT REDUCE POP PUT GET MEMOIZE STOP")
 
     ARGSETS = [("CODE",), (), ("a", [1, "x"], {"k": 2, "e": {}}), (0, 1, True, False, "retries", [0, True], {"n": 1, "flag": False})]
+    # boundary shapes taken from the code itself: an integer constant in the argument encoder (a batch size, a threshold)
+    # is a length at which containers start to be handled differently
+    consts = set()
+    enc = repo.find_method(h.pk, "_encode_python_obj")
+    for src_node in ([enc.node] if enc is not None else []) + [v for v in h.pk.attrs.values()]:
+        for n_ in ast.walk(src_node):
+            if isinstance(n_, ast.Constant) and isinstance(n_.value, int) and not isinstance(n_.value, bool) and 8 <= n_.value <= 5000:
+                consts.add(n_.value)
+    for c_ in sorted(consts)[:3]:
+        ARGSETS.append((list(range(c_ + 1)), {f"k{i}": i for i in range(c_ + 1)}, list(range(2 * c_ + 1))))
     HEADERS = [("PROTO", "FRAME"), ()]
     if tier == "thorough":
         ARGSETS += [(1, 2, 3, 4), ([[["deep"]]],), ({"a": {"b": {"c": [1, {"d": 2}]}}},), ("x" * 300,), (b"bytes", 7)]
@@ -618,9 +696,11 @@ def run(rep: Report, tier: str):
         # ---- run on the template VM
         try:
             res = run_tokens(toks, h.by_name)
+        except Unsupported as e:
+            raise AnalysisError(f"{q} [{label}]: {e}")
         except VMError as e:
             kind = "C08.memo-read" if "GET" in str(e) else "C08.balanced"
-            rep.bad(kind, q, f"vm-error:{helper}:{label0}", f"[{label}] the rewritten pickle `{seq}` fails on the pickle VM: {e}", f.file, f.line)
+            rep.bad(kind, q, f"vm-error:{helper}:{label0}", f"[{label}] the rewritten pickle `{seq[:400]}` fails on the pickle VM: {e}", f.file, f.line)
             continue
         rep.ok("C08.memo-read", q, f"[{label}] every GET reads a key the template wrote", where)
         stack, reduces = res["stack"], res["reduces"]
@@ -677,7 +757,7 @@ def run(rep: Report, tier: str):
         if len(mine) == 1 and len(reduces) == 1 and _strict_eq(list(_value_of(mine[0][1])), list(args)):
             rep.ok("C08.once", q, f"[{label}] exactly one REDUCE of {mod}.{attr} with the given arguments", where)
         else:
-            rep.bad("C08.once", q, f"call-count:{label0}", f"[{label}] REDUCEs performed: {[(fn, _value_of(a)) for fn, a in reduces]!r}; expected exactly one call of {mod}.{attr}{tuple(args)!r}", f.file, f.line)
+            rep.bad("C08.once", q, f"call-count:{label0}", f"[{label}] REDUCEs performed: {repr([(fn, _value_of(a)) for fn, a in reduces])[:300]}...; expected exactly one call of {mod}.{attr}{repr(tuple(args))[:200]}", f.file, f.line)
     rep.extra["template_cases_evaluated"] = n_eval
     # ---- helpers refuse a list that does not end in STOP
     for helper in ("insert_python", "append_python", "insert_function_call_on_unpickled_object"):
